@@ -2,7 +2,7 @@
 From Coq Require Import Lia.
 From ChitchatModel Require Import Base SMap Ids Bytes Params NodeState Stream DeltaWire Message
   Cluster FD Chitchat World SMap_lemmas NodeState_lemmas Builder_lemmas Cluster_lemmas Chitchat_lemmas Inv
-  Truth NodeTruth Weak Reach Progress Potential ReachMono.
+  Truth NodeInv NodeTruth Weak Reach Progress Potential ReachMono Monitors KeyMono.
 
 (* For EVERY copy and EVERY node delta whose key-value versions do not exceed its max_version
    (all that the decoder's grammar lets through: C04_decoder_output_bounded), honest or not:
@@ -136,3 +136,45 @@ Theorem C04_frontiers_monotone_along_steps : forall zc,
        node_le n n').
 Proof. exact frontiers_monotone_along_steps. Qed.
 Print Assumptions C04_frontiers_monotone_along_steps.
+
+(* ... and the second half of the same sentence, "a key's stored version never decreases except
+   when the whole copy is wiped by a reset that strictly raises the watermark": along every step
+   from every reachable state, every copy that is kept (a) has a larger-or-equal frontier and (b)
+   either its watermark strictly rose, or every key it held is still there with a version at least
+   as large, or the key was a deleted / TTL-marked entry collected at or below the new watermark
+   (tombstone GC, the one removal the implementation performs without wiping the copy). *)
+Theorem C04_key_versions_monotone_along_steps : forall zc,
+  (forall b c, zc b = Some c -> len c <= len b) -> forall strict g g',
+  reachable zc strict g -> gstep zc strict g g' ->
+  forall a n, node_at g a = Some n ->
+    exists n', node_at g' a = Some n' /\
+      forall X c, nm_get X (cs_nodes (nd_cs n)) = Some c ->
+        nm_get X (cs_nodes (nd_cs n')) = None \/
+        exists c', nm_get X (cs_nodes (nd_cs n')) = Some c' /\ frontier_le c c' /\
+          (c_gc c < c_gc c' \/
+           forall k o, kget k (c_kvs c) = Some o ->
+             (exists o', kget k (c_kvs c') = Some o' /\ v_ver o <= v_ver o') \/
+             (kget k (c_kvs c') = None /\ mscheduled (to_mstatus (v_st o)) = true /\ v_ver o <= c_gc c')).
+Proof. exact key_versions_monotone_along_steps. Qed.
+Print Assumptions C04_key_versions_monotone_along_steps.
+
+(* message processing alone (no GC pass) never removes a key: watermark strictly up, or equal with
+   every key kept at a version at least as large — for every grammar-valid message, honest or not *)
+Theorem C04_process_message_key_versions : forall zc now n m ord n' reply evs,
+  msg_wf m -> process_message zc now n m ord = Ok (n', reply, evs) ->
+  forall X c, nm_get X (cs_nodes (nd_cs n)) = Some c ->
+    exists c', nm_get X (cs_nodes (nd_cs n')) = Some c' /\
+      (c_gc c < c_gc c' \/ (c_gc c = c_gc c' /\
+        forall k o, kget k (c_kvs c) = Some o -> exists o', kget k (c_kvs c') = Some o' /\ v_ver o <= v_ver o')).
+Proof. intros zc now n m ord n' reply evs Hwf Hrun. exact (process_message_fwd zc now n m ord n' reply evs Hwf Hrun). Qed.
+Print Assumptions C04_process_message_key_versions.
+
+(* the C04 monitor evaluated on the implementation's dumps is implied by the theorem: the model
+   passes it on every step of every reachable state, so a failure is a genuine difference *)
+Theorem C04_every_step_passes_the_monitor : forall zc,
+  (forall b c, zc b = Some c -> len c <= len b) -> forall strict g g',
+  reachable zc strict g -> gstep zc strict g g' ->
+  forall a n, node_at g a = Some n -> exists n', node_at g' a = Some n' /\
+    Monitors.c04_nodes_ok (cs_nodes (nd_cs n)) (cs_nodes (nd_cs n')) = true.
+Proof. exact steps_pass_c04_monitor. Qed.
+Print Assumptions C04_every_step_passes_the_monitor.
